@@ -102,6 +102,24 @@ GosubFailProg(t, inner) ==
                 handler>>,
               [kind |-> "gosubfail", expect |-> <<1, 8, 20, 2, 3, 30, 9>>])
 GosubFamily == {GosubProg(d) : d \in 1..4} \cup {GosubFailProg(t, inner) : t \in {"GOSUB", "ON"}, inner \in BOOLEAN}
+\* WHILE / WEND: nested loops, and an inner loop that is left by a jump (its record must be dropped when the outer WEND is
+\* reached: round-3 seeded change C19c searched the stack without dropping it, so the terminating pass resumed after the inner WEND)
+While(e) == [op |-> "WHILE", e |-> e, col |-> TRUE]
+Wend == [op |-> "WEND", col |-> TRUE]
+\* outer loop n passes; the inner loop would run m passes but jumps out (to the line after its WEND) when its counter reaches j
+WhileProg(n, m, j) ==
+    LET inner(a) == IF j >= 1 /\ j <= m THEN j ELSE m       \* value of I when the inner loop is left
+    IN P(<<Ln(10, <<Let("A", C(0))>>),
+           Ln(20, <<While(B("<", V("A"), C(n)))>>),
+           Ln(30, <<Let("A", B("+", V("A"), C(1))), Let("I", C(0))>>),
+           Ln(40, <<While(B("<", V("I"), C(m))), Let("I", B("+", V("I"), C(1))),
+                    [op |-> "IF", e |-> B("=", V("I"), C(j)), tn |-> 70, en |-> 0, ei |-> 0, col |-> TRUE]>>),
+           Ln(60, <<Wend>>),
+           Ln(70, <<Prt(B("+", B("*", V("A"), C(10)), V("I")))>>),
+           Ln(80, <<Wend>>),
+           Ln(90, <<Prt(C(99)), EndS>>)>>,
+         [kind |-> "while", expect |-> [a \in 1..n |-> a * 10 + inner(a)] \o <<99>>])
+WhileFamily == {WhileProg(n, m, j) : n \in 0..3, m \in 0..3, j \in 0..4}
 (* ---------------- C22: READ / DATA / RESTORE ---------------- *)
 \* four items spread over three DATA statements (one in the middle of a multi-statement line); the program reads r
 \* values, RESTOREs (variant rv) after the j-th, and prints every value read
